@@ -3,7 +3,7 @@ from . import common as C, storage_io as S
 
 MODULE = "AcqVerif.Props.C16"
 DRIVERS = ["acq_storage"]
-THEOREMS = []
+THEOREMS = ["AcqVerif.C16.C16_total", "AcqVerif.C16.C16_file_write_bounded", "AcqVerif.C16.C16_owned_descriptors_only", "AcqVerif.C16.C16_every_prefix_disciplined", "AcqVerif.C16.ownRun_call_owned", "AcqVerif.C16.C16_never_started", "AcqVerif.C16.C16_failure_is_reported"]
 ORACLES = {"unowned-pwrite", "unowned-close", "unowned-flock", "descriptor-leak", "unreported-write-failure"}
 INTERESTING = ("fw.fail", "fw.zero3", "open.fail", "flock.fail", "close.fail", "mkdir.fail", "fw.short", "fw.zero")
 
